@@ -80,7 +80,7 @@ def run(tier, seed):
         names = rng.choice(list(g.values()))
         a, b = rng.choice(names), rng.choice(names)
         c, d = rng.choice(allnames), rng.choice(allnames)
-        form = rng.randint(0, 11)
+        form = rng.randint(0, 14)
         if form == 0:
             texts.append("%s%s %s -> %s %s" % (coeff(rng), a, c, b, c))
         elif form == 1:
@@ -103,8 +103,14 @@ def run(tier, seed):
             texts.append("%s%s %s^0 -> %s" % (coeff(rng), a, c, b))
         elif form == 10:
             texts.append("%s%s -> %s %s^0" % (coeff(rng), a, b, c))
-        else:
+        elif form == 11:
             texts.append("%s%s^3 / %s^2 -> %s (%s^2)^0" % (coeff(rng), a, b, b, c))
+        elif form == 12:      # zeroth powers of a ZERO quantity, and a zero written as a difference
+            texts.append("(0 %s)^0 -> 1" % a)
+        elif form == 13:
+            texts.append("%s%s (%s - %s)^0 -> %s" % (coeff(rng), a, c, c, b))
+        else:
+            texts.append("%s%s -> %s (0 %s)^0" % (coeff(rng), a, b, c))
     shards = 16 if thorough else 8
     res, events, verdicts = evalkit.decide(run, texts, "pairs", env=env, shards=shards)
     run.sample({"leg": "pairs", "q": texts[0]})
